@@ -72,13 +72,15 @@ Section Eval.
               match deeper with
               | None => err0 "RecursionLimit"
               | Some k =>
-                  (* arguments are evaluated at the call site, zipped with the parameters *)
+                  (* arguments are evaluated at the call site, zipped with the parameters; then a
+                     parameter left without argument is an error, used by the body or not *)
                   let fix bind (ps : list string) (az : list expr) (acc : var_env) {struct az}
                       : res var_env :=
                     match ps, az with
                     | p :: ps', a :: az' =>
                         do v <- ev vars a ; bind ps' az' (bind_var acc p v)
-                    | _, _ => Ok acc
+                    | p :: _, [] => err1 "UndefinedVariable" p   (* every parameter needs an argument *)
+                    | [], _ => Ok acc                            (* surplus arguments are ignored *)
                     end in
                   do vs <- bind (em_params d) args [] ;
                   k (Some vs) (em_body d)
